@@ -458,7 +458,28 @@ Builtin(o, m, args, st) ==
                R(VList(Len(s3.lists)), s3)
           [] OTHER -> R(VNil, FailWith(st, "type"))
     ELSE IF o.t = "str" THEN
+        \* string built-ins (ASCII receivers: byte and character indices coincide); range errors are failures of class
+        \* "index", an unusable radix is a failed conversion
         CASE m = "len" -> R(VInt(Len(o.s)), st)
+          [] m = "substring" ->
+               IF args[1].t # "int" \/ args[2].t # "int" THEN R(VNil, FailWith(st, "type"))
+               ELSE IF args[1].v < 0 \/ args[2].v < 0 THEN R(VNil, FailWith(st, "conversion"))
+               ELSE IF args[1].v > args[2].v \/ args[2].v > Len(o.s) THEN R(VNil, FailWith(st, "index"))
+               ELSE R(VStr(SubSeq(o.s, args[1].v + 1, args[2].v)), st)
+          [] m = "delete" ->
+               IF args[1].t # "int" \/ args[2].t # "int" THEN R(VNil, FailWith(st, "type"))
+               ELSE IF args[1].v < 0 \/ args[2].v < 0 THEN R(VNil, FailWith(st, "conversion"))
+               ELSE IF args[1].v > args[2].v \/ args[2].v > Len(o.s) THEN R(VNil, FailWith(st, "index"))
+               ELSE R(VStr(SubSeq(o.s, 1, args[1].v) \o SubSeq(o.s, args[2].v + 1, Len(o.s))), st)
+          [] m = "insert" ->
+               IF args[1].t # "str" \/ args[2].t # "int" THEN R(VNil, FailWith(st, "type"))
+               ELSE IF args[2].v < 0 THEN R(VNil, FailWith(st, "conversion"))
+               ELSE IF args[2].v > Len(o.s) THEN R(VNil, FailWith(st, "index"))
+               ELSE R(VStr(SubSeq(o.s, 1, args[2].v) \o args[1].s \o SubSeq(o.s, args[2].v + 1, Len(o.s))), st)
+          [] m = "parse_int_radix" ->
+               IF args[1].t # "int" THEN R(VNil, FailWith(st, "type"))
+               ELSE IF args[1].v < 2 \/ args[1].v > 36 THEN R(VNil, FailWith(st, "conversion"))
+               ELSE R(VNil, FailWith(st, "type"))        \* the parse itself is MSStr's (C14), not modelled here
           [] OTHER -> R(VNil, FailWith(st, "type"))
     ELSE IF o.t = "fn" /\ m = "is_closure" THEN R(VBool(DOMAIN o.cap # {}), st)
     ELSE R(VNil, FailWith(st, "type"))
